@@ -4,7 +4,7 @@ import json, os, glob, subprocess
 ROOT = '/verif'
 ids = [json.loads(l)['id'] for l in open(ROOT + '/properties.jsonl')]
 checks, na, served = [], [], []
-TECH = 'machine-checked Coq theorems about an executable Gallina model + model/implementation correspondence check (model extracted to OCaml and run against the Rust code on generated cases; sample re-evaluated in the Coq kernel)'
+TECH = 'machine-checked Coq theorems about an executable Gallina model; the model is tied to the code by translators that regenerate parts of it from the Rust source on every run (theorems re-checked) and by a model/implementation correspondence check (model extracted to OCaml and run against the Rust code on generated cases; sample re-evaluated in the Coq kernel)'
 for pid in ids:
     cj = '%s/props/%s/claim.json' % (ROOT, pid)
     if os.path.exists(cj):
@@ -37,7 +37,7 @@ m = {
         'add_only': True,
     },
     'engines': [{'name': 'coq-proof+correspondence', 'path': 'check', 'serves_properties': served,
-                 'kind_free_text': 'Coq 8.16 development (coq/): executable Gallina models + theorems (Props/Cxx.v, Print Assumptions checked each run); models extracted to OCaml and run against the Rust implementation built from /repo\'s working tree on generated cases; sample re-evaluated in the kernel; translators regenerate leaf arithmetic (C15) and configuration constants (C16) from /repo on every run'}],
+                 'kind_free_text': 'Coq 8.16 development (coq/): executable Gallina models + theorems (Props/Cxx.v, Print Assumptions checked each run); models extracted to OCaml and run against the Rust implementation built from /repo\'s working tree on generated cases; sample re-evaluated in the kernel; translators regenerate from /repo on every run: leaf u128 arithmetic (T-leaf), field-level formulas of curves / towers / hash maps / subgroup tests / point serialisation (T-field, 3 tables), limb-level loops incl. the code the MontConfig derive macro generates (T-limb), the serialization derive macros\' output (T-ser) and every configuration constant (T-const)'}],
     'checks': checks,
     'notes': 'see DESIGN.md (§14 = status as built; per-property props/Cxx/NOTES.md). known_findings.json lists recorded findings and fix: commits.',
     'not_applicable': na,
